@@ -5,6 +5,7 @@ from rules import stream
 from sa.deps import Facts, names_in, pseudo
 from sa.loader import AnalysisError, FuncInfo, own_nodes
 from sa.model import u, where
+from sa.pattern import find_expr, find_stmt, has_expr, has_stmt, match_expr, match_stmt
 
 SR = 'dataflows.processors.sort_rows'
 
@@ -120,9 +121,14 @@ def check(ctx):
                   '("ab","c") sorts before ("a","z")')
     run.rule('NUM', 'NUMERIC-ENCODING (shape): raw numeric key fields are encoded as the 64-bit float pattern with the sign bit '
                     'inverted and, for negatives, all remaining bits inverted (order-preserving for doubles)')
-    body = u(kc.node)
-    ok = 'BitArray(float=value, length=64)' in body and 'bits.invert(0)' in body and 'if value < 0' in body and \
-        'bits.invert(range(1, 64))' in body and 'value = bits.hex' in body and 'isinstance(value, (int, float, decimal.Decimal))' in body
+    enc = find_stmt('_b = BitArray(float=_v, length=64)', kc.node)
+    ok = len(enc) == 1
+    if ok:
+        b = enc[0][1]
+        ok = has_expr('%s.invert(0)' % b['_b'], kc.node) and \
+            has_stmt('if %s < 0:\n    %s.invert(range(1, 64))' % (b['_v'], b['_b']), kc.node) and \
+            has_stmt('%s = %s.hex' % (b['_v'], b['_b']), kc.node) and \
+            has_expr('isinstance(%s, (int, float, decimal.Decimal))' % b['_v'], kc.node)
     run.check(ok, 'NUM', kc.where, kc.qualname, 'sign bit inverted; negatives fully inverted; hex', 'the numeric encoding no longer preserves numeric order')
     st = repo.func(SR + ':sort_rows.func')
     stream.r6_identity(ctx, [st])
